@@ -134,3 +134,24 @@ func variadicElems(arg ssa.Value) map[int]ssa.Value {
 	}
 	return out
 }
+
+// bindByNorm gives role to every integer value of fn whose normal form is the given atom
+// (several loads of the same location are distinct SSA values).
+func bindByNorm(n *Normer, fn *ssa.Function, atom, role string) {
+	var hits []ssa.Value
+	eachInstr(fn, func(b *ssa.BasicBlock, ins ssa.Instruction) {
+		v, ok := ins.(ssa.Value)
+		if !ok || !isIntType(v.Type()) {
+			return
+		}
+		if _, isLoad := v.(*ssa.UnOp); !isLoad {
+			return
+		}
+		if n.Norm(v).String() == atom {
+			hits = append(hits, v)
+		}
+	})
+	for _, v := range hits {
+		n.Bind[v] = role
+	}
+}
